@@ -69,3 +69,8 @@ claim("C13",
       "Decides for every command history that the snapshot is loaded only in AUTHORIZATION and always followed by rebuilding marks of equal length; that Store.RemoveMessage is reachable only through the delete processor (per message under !retain[i], with that element's id), which runs only in TRANSACTION under the QUIT comparison on the success edge of the line read and is followed by QUIT; that marking and counting stay paired and RSET rebuilds the marks; that every listed line and accumulated total is conditional on retain[i] with number i+1 and the right accessor; that argument-derived indices are within 1..len(snapshot); and that listings end with the terminator. The store underneath a live snapshot and TLS are not decided.",
       "Trusts go/ssa; one Session per goroutine; ParseInt(…,32) fits int.",
       "DESIGN.md section 4, C13")
+claim("C05",
+      "exhaustive evaluation of the loop-free policy predicates over all truth assignments of their atoms (no solver), parameter-use and writer/reader set agreement for lower-casing, dominance and reach-avoid with edge filters for the RCPT/MAIL guards",
+      "Decides that every domain list the policy reads is lower-cased at load time and every predicate folds its argument, that the accept/store predicates equal the documented rule on all 8 assignments of (default flag, in-list, in-other-list) with membership tested on the folded domain, that the origin predicate refuses exactly on a wildcard match with (pattern=list element, subject=domain), that a recipient is appended / a sender accepted only if the policy agreed or an extension answered Allow, and that the recipient limit is strict. The wildcard matcher's arithmetic is not decided.",
+      "Trusts go/ssa; configuration immutable after Process; SliceContains exactness is itself checked.",
+      "DESIGN.md section 4, C05")
